@@ -28,6 +28,14 @@ def main():
     emit_lean.emit_parser_ir(ir)
     emit_lean.emit_tables(ir)
     emit_lean.emit_witness(ir)
+    emit_lean.emit_comp(ir)
+    from harness.translate import actions, inventory
+
+    try:
+        actions.emit()
+        inventory.emit()
+    except Exception as e:  # noqa: BLE001
+        problems.append(f"actions/inventory translator: {type(e).__name__}: {e}")
     from harness.translate import regexes
 
     try:
